@@ -1,0 +1,27 @@
+//go:build verif
+
+package yubiagent
+
+// Contracts for the verification framework in /verif (comment-only file,
+// compiled only with -tags verif; see /verif/DESIGN.md).
+
+//@ # ---------------------------------------------------------------- C12: framed I/O
+//@ ghost func be32(b bytes, i int) int = b[i] * 16777216 + b[i+1] * 65536 + b[i+2] * 256 + b[i+3]
+
+//@ func read(c)
+//@   flag logged
+//@   requires c != nil
+//@   modifies rpos(pl(c))
+//@   ensures [alloc-bound] allocmax() <= 16777216
+//@   ensures err != nil ==> data == nil
+//@   ensures [eof-only-at-frame-boundary] err == io.EOF ==> rpos(pl(c)) == old(rpos(pl(c)))
+//@   ensures [frame-content] err == nil ==> (len(data) == be32(rdata(pl(c)), old(rpos(pl(c)))) && len(data) <= 16777216 &&
+//@     rpos(pl(c)) == old(rpos(pl(c))) + 4 + len(data) &&
+//@     forall(j, 0 <= j && j < len(data), data[j] == rdata(pl(c))[old(rpos(pl(c))) + 4 + j]))
+//@   ensures err == nil ==> (len(data) > 0 ==> fresh(arr(data)))
+
+//@ func write(c, data)
+//@   flag logged
+//@   requires c != nil
+//@   modifies hacc(pl(c))
+//@   ensures true
